@@ -228,11 +228,12 @@ def integer_paths_agree(s: str) -> bool:
     return (a is not None) == castable and (b is not None) == castable and a == b
 
 
-@ob(budget=60, tbudget=600, kind='hunt', bound='string of length <= 5: constructor and castable agree for xs:boolean and match the lexical space (bug-hunting)',
+@ob(budget=60, tbudget=600, kind='hunt', bound='string of length <= 5 without non-XML Unicode white space (known finding C10-unicode-whitespace-digits): constructor and castable agree for xs:boolean and match the lexical space (bug-hunting)',
     funcs=['elementpath/datatypes/proxies.py:BooleanProxy'])
 def boolean_paths_agree(s: str) -> bool:
     """
     pre: len(s) <= 5
+    pre: all(ch in _XMLWS or not ch.isspace() for ch in s)
     post: _
     """
     castable = ev(T['castable_bool'], s=s) == [True]
@@ -363,6 +364,7 @@ def decimal_string_roundtrip(k: int, p: int) -> bool:
 
 # --- added after round-3 seeded changes: whitespace-collapsed xs:boolean VALUE; negative zero of xs:float / xs:double -------------------
 
+_XMLWS = ' ' + chr(9) + chr(10) + chr(13)
 T2.update(parse_all({'bool_ctor': 'xs:boolean($s)', 'bool_cast': '$s cast as xs:boolean', 'bool_untyped': 'xs:untypedAtomic($s) = true()',
                      'bool_castable': '$s castable as xs:boolean',
                      'flt_str': 'string(xs:float($s))', 'flt_div': '1 div xs:float($s)', 'dbl_str': 'string(xs:double($s))', 'dbl_div': '1 div xs:double($s)',
@@ -403,3 +405,19 @@ def float_zero_sign(zi: int) -> bool:
     if underflow:
         return True
     return _try(T2['dbl_str'], s=s) == [zs] and _try(T2['dbl_div'], s=s) == inf
+
+
+# recorded finding: the constructors trim with str.strip() and convert with int()/float()/Decimal(), which accept every Unicode white space
+# character and every Unicode decimal digit; the XSD lexical spaces admit only #x20 #x9 #xA #xD and [0-9]
+T2.update(parse_all({'kf_bool': 'xs:boolean($s)', 'kf_int': 'xs:integer($s)', 'kf_date': '$s castable as xs:date'}))
+
+
+@ob(budget=60, kind='witness', finding='C10-unicode-whitespace-digits', bound="the strings U+205F '0', ARABIC-INDIC '12' and U+2005 '2000-01-01'",
+    funcs=['elementpath/datatypes/proxies.py:BooleanProxy.__new__', 'elementpath/datatypes/numeric.py:Integer', 'elementpath/datatypes/datetime.py:fromstring'])
+def known_unicode_whitespace_digits(k: int) -> bool:
+    """
+    pre: k == 1
+    post: _
+    """
+    return _try(T2['kf_bool'], s=chr(0x205f) + '0') == 'FORG0001' and _try(T2['kf_int'], s=chr(0x661) + chr(0x662)) == 'FORG0001' \
+        and _try(T2['kf_date'], s=chr(0x2005) + '2000-01-01') == [False]
